@@ -21,41 +21,117 @@ theorem lookup_in_history (c0 : Cfg) (ops : List Op) (i : Nat) (op : Op) (h : op
     (run (start c0) ops).2[i]? = some (step (run (start c0) (ops.take i)).1 op).2 :=
   run_take_output _ _ _ _ h
 
+/-- the configuration of the world after a history is the one installed by its last reload /
+configuration swap (`cfgAfter`) -/
+theorem cfg_in_force (c0 : Cfg) (ops : List Op) : (run (start c0) ops).1.cfg = cfgAfter c0 ops :=
+  run_cfg ops (start c0)
+
 /-- **Scoped, live answers.**  Whatever the history (the clock may even jump backwards), if a lookup
-under `key` is answered, then
-* the answer is the one an *insert of the history* stored under exactly that key (`insKey` is the
-  key the insert used: the caller's `responseCacheKey`, or the derived one) — see `key_injective`
-  for what equal keys mean;
-* its deadline TTL `eff` is the TTL given to that insert or the `fixed_domain_ttl` of its host in a
-  configuration that was in force;
+under `key` is answered, then the history splits as `pre ++ insert :: post` where
+* that insert stored exactly this answer under exactly this key (`insKey` is the key the insert used:
+  the caller's `responseCacheKey`, or the derived one) — see `key_injective` for what equal keys mean;
+* it is the **latest** word on the key: no operation of `post` stores under the key again, removes it
+  or removes its family (`kills`);
+* its deadline TTL `eff` is the TTL given to the insert, or the `fixed_domain_ttl` of its host **in the
+  configuration in force when the insert ran** (`cfgAfter c0 pre`);
 * a fresh answer is served strictly before `t + eff` seconds (`t + ttl` when the caller ignores the
   fixed TTL);
-* a stale answer is served only when optimistic caching is on, at or after the deadline, and — when
-  a stale window is configured — not after `deadline + optimistic_cache_ttl`. -/
+* a stale answer is served only when optimistic caching is on in the configuration in force now, at
+  or after the deadline, and — when a stale window is configured — not after
+  `deadline + optimistic_cache_ttl`. -/
 theorem served_only_live_and_scoped (c0 : Cfg) (ops : List Op) (now : Int) (key : Key) (ign : Bool) (sv : Served)
     (h : (step (run (start c0) ops).1 (.lookup now key ign)).2 = .hit sv) :
-    ∃ key0 host0 ns c,
-      Op.insert sv.src.t key0 host0 sv.src.qtype sv.src.ttl sv.ans sv.nAns ns false ∈ ops ∧
+    ∃ pre post key0 host0 ns,
+      ops = pre ++ Op.insert sv.src.t key0 host0 sv.src.qtype sv.src.ttl sv.ans sv.nAns ns false :: post ∧
+      (∀ o ∈ post, kills o key = false) ∧
       key = insKey key0 host0 sv.src.qtype ∧
-      c ∈ cfgsOf c0 ops ∧ sv.src.eff = effTtl c (splitHost host0).2 sv.src.ttl ∧
+      sv.src.eff = effTtl (cfgAfter c0 pre) (splitHost host0).2 sv.src.ttl ∧
       (sv.stale = false → now < sv.src.t + (if ign then sv.src.ttl else sv.src.eff) * SEC) ∧
       (sv.stale = true →
-        (run (start c0) ops).1.cfg.optimistic = true ∧ sv.src.t + sv.src.eff * SEC ≤ now ∧
-        ((run (start c0) ops).1.cfg.staleTtl > 0 →
-          now ≤ sv.src.t + sv.src.eff * SEC + (run (start c0) ops).1.cfg.staleTtl * SEC)) := by
+        (cfgAfter c0 ops).optimistic = true ∧ sv.src.t + sv.src.eff * SEC ≤ now ∧
+        ((cfgAfter c0 ops).staleTtl > 0 →
+          now ≤ sv.src.t + sv.src.eff * SEC + (cfgAfter c0 ops).staleTtl * SEC)) := by
   obtain ⟨e0, hf, hl⟩ := step_lookup_hit h
   have hm := find_mem hf
   have hS := run_OkS ops (start c0) (AllE_empty _) _ hm
-  have hH := (run_SrcOk ops [c0] [] (start c0) (by simp [start]) (AllE_empty _)).2 _ hm
+  have hL : LastIns c0 ops key e0 := by
+    have := run_LastIns ops c0 [] (start c0) rfl (AllE_empty _) _ hm
+    simpa using this
   obtain ⟨hsrc, _, hans, hn, hfresh, hstale⟩ := served_bounds hS hl
-  obtain ⟨key0, host0, ns, c, h1, h2, h3, h4, h5⟩ := hH
-  refine ⟨key0, host0, ns, c, ?_, ?_, ?_, ?_, fun hs => (hfresh hs).1, fun hs => ?_⟩
-  · rw [hsrc, hans, hn]; simpa using h1
-  · rw [hsrc]; exact h4
-  · simpa [cfgsOf] using h2
-  · rw [hsrc, h5, h3]
+  obtain ⟨pre, post, key0, host0, ns, h1, h2, h3, h4, h5⟩ := hL
+  refine ⟨pre, post, key0, host0, ns, ?_, h2, ?_, ?_, fun hs => (hfresh hs).1, fun hs => ?_⟩
+  · rw [hsrc, hans, hn]; exact h1
+  · rw [hsrc]; exact h3
+  · rw [hsrc, h5, h4]
   · obtain ⟨a, b, c, _⟩ := hstale hs
+    rw [cfg_in_force] at a c
     exact ⟨a, b, c⟩
+
+/-- **Fresh answers are served.**  A stored entry whose deadline has not passed is answered from the
+cache (never a miss), as a fresh answer, with its own answer set and without a refresh request. -/
+theorem fresh_served (c0 : Cfg) (ops : List Op) (now : Int) (key : Key) (e : Entry)
+    (hf : find (run (start c0) ops).1.st.entries key = some e) (hd : e.deadline > now) :
+    ∃ sv, (step (run (start c0) ops).1 (.lookup now key false)).2 = .hit sv ∧ sv.stale = false ∧
+      sv.ans = e.ans ∧ sv.nAns = e.nAns ∧ sv.refresh = false := by
+  rcases lookupEntry_cases (run (start c0) ops).1.cfg now false e with ⟨_, hc | hc⟩ | hc | hc
+  · obtain ⟨ttl, _, heq⟩ := hc
+    have hstep : (step (run (start c0) ops).1 (.lookup now key false)).2 =
+        LRes.hit (freshServed (touch e now) ttl (decide ((touch e now).nAns > 0) || (touch e now).ns == 1)) := by
+      simp only [step, State.lookup, hf, heq]
+    exact ⟨_, hstep, rfl, rfl, rfl, rfl⟩
+  · obtain ⟨_, heq⟩ := hc
+    have hstep : (step (run (start c0) ops).1 (.lookup now key false)).2 =
+        LRes.hit (freshServed (touch e now) (ttlFromDeadline (touch e now).deadline now)
+          (decide ((touch e now).nAns > 0))) := by
+      simp only [step, State.lookup, hf, heq]
+    exact ⟨_, hstep, rfl, rfl, rfl, rfl⟩
+  · have : e.deadline ≤ now := by simpa [lookupDeadline] using hc.1
+    omega
+  · have : e.deadline ≤ now := by simpa [lookupDeadline] using hc.1
+    omega
+
+/-- **The latest insert wins.**  Right after an insert the key holds exactly the entry built from that
+insert (answer, TTL, the configuration in force) — whatever was stored there before. -/
+theorem latest_insert_wins (c0 : Cfg) (ops : List Op) (t : Int) (key : Key) (host : List Char) (q : Nat)
+    (ttl : Int) (a n ns : Nat) :
+    let w := (run (start c0) ops).1
+    find (run (start c0) (ops ++ [Op.insert t key host q ttl a n ns false])).1.st.entries (insKey key host q) =
+      some (insEntry (cfgAfter c0 ops) w.st.nextId t key host q ttl a n ns) := by
+  intro w
+  rw [run_append, ← cfg_in_force]
+  simp only [run_cons, run_nil, step, State.insert, Bool.false_eq_true, if_false, find_store, if_true]
+  rfl
+
+/-- **Removed means gone.**  After `RemoveDnsRespCache`, after `RemoveDnsRespCacheFamily` of its base
+key, and after a janitor run that evicted it, a key is a miss. -/
+theorem removed_is_gone (c0 : Cfg) (ops : List Op) (now : Int) (key : Key) (ign : Bool) :
+    let w := (run (start c0) ops).1
+    (step (step w (.remove key)).1 (.lookup now key ign)).2 = .miss ∧
+    (baseKey key ≠ [] → (step (step w (.removeFamily (baseKey key))).1 (.lookup now key ign)).2 = .miss) ∧
+    (∀ (t : Int) (choice : List Key) (e : Entry), (key, e) ∈ w.st.entries →
+      (key, e) ∉ (w.st.janitor w.cfg t choice).entries →
+      (step (step w (.janitor t choice)).1 (.lookup now key ign)).2 = .miss) := by
+  intro w
+  have hmiss : ∀ (w' : World), find w'.st.entries key = none → (step w' (.lookup now key ign)).2 = .miss := by
+    intro w' h; simp only [step, State.lookup, h]
+  refine ⟨hmiss _ ?_, fun hb => hmiss _ ?_, fun t choice e hin hout => hmiss _ ?_⟩
+  · simp only [step, State.remove, find_erase, if_true]
+  · simp only [step, State.removeFamily, if_neg hb]
+    cases hf : find (w.st.entries.filter fun p => baseKey p.1 ≠ baseKey key) key with
+    | none => rfl
+    | some e' =>
+      have := (List.mem_filter.mp (find_mem hf)).2
+      simp at this
+  · simp only [step]
+    cases hf : find (w.st.janitor w.cfg t choice).entries key with
+    | none => rfl
+    | some e' =>
+      have hm := find_mem hf
+      have hkn : KN w.st.entries := run_KN ops (start c0) (by simp [KN, start, State.empty])
+      have h1 := find_of_mem hkn hin
+      have h2 := find_of_mem hkn (janitor_subset _ _ _ _ _ hm)
+      rw [h1] at h2; cases h2
+      exact absurd hm hout
 
 -- non-vacuity: an insert under a scoped key (here `a.1|u`), then: fresh hit 2 s later (3 s left, the packed TTL 5 is shown: within the slack),
 -- stale hit with refresh request after expiry, miss beyond the 60 s window, miss under another type.
